@@ -268,9 +268,12 @@ def c10(rep, env):
 
 def c11(rep, env):
     def f(fb):
-        only(rep, lambda r: SM.check_ctr_remaining(r, fb), pre("rem."))
+        # `remaining` is expressed over the flavour's block counter: it means "blocks still available"
+        # only if that counter starts at 0 (from_nonce), follows seeks (set_from_backend) and advances
+        # by one per block
+        only(rep, lambda r: SM.check_ctr_remaining(r, fb), pre("rem.", "pos.get", "pos.set"))
         only(rep, lambda r: SM.check_ctr_core(r, fb), pre("rem."))
-        only(rep, lambda r: SM.check_ctr_layout(r, fb), pre("ctr.next.advance"))
+        only(rep, lambda r: SM.check_ctr_layout(r, fb), pre("ctr.next.advance", "ctr.from-nonce"))
         only(rep, lambda r: SM.check_ctr_backend(r, fb), pre("ctr.ks.advance", "par.closed-form.state"))
         only(rep, lambda r: SM.check_belt(r, fb, parts=("rem", "def", "par")), pre("rem.", "belt.ks.advance", "par.closed-form.state"))
         MI.check_ofb_unbounded(rep, fb)
@@ -301,8 +304,9 @@ def c13(rep, env):
         CM.check_wrappers(rep, fb)
         # an inexact remaining-blocks report makes the byte-level API fail (or the panicking
         # variant panic) without any contract violation
-        only(rep, lambda r: SM.check_ctr_remaining(r, fb), pre("rem."))
+        only(rep, lambda r: SM.check_ctr_remaining(r, fb), pre("rem.", "pos.get", "pos.set"))
         only(rep, lambda r: SM.check_ctr_core(r, fb), pre("rem."))
+        only(rep, lambda r: SM.check_ctr_layout(r, fb), pre("ctr.next.advance", "ctr.from-nonce"))
         only(rep, lambda r: SM.check_belt(r, fb, parts=("rem",)), pre("rem."))
         MI.check_overrides(rep, fb)
         MI.check_iv_sizes(rep, fb)
@@ -341,6 +345,9 @@ def c15(rep, env):
         BM.check_dependence(rep, fb)
         # the propagation pattern over a multi-block call is that of the iterated one-block kernel
         only(rep, lambda r: BM.check_par(r, fb), pre("par.closed-form"))
+        # the dependence pattern is established on the buffer-to-buffer summary: it holds for in-place
+        # calls iff the in-place summary is the same function
+        only(rep, lambda r: BM.check_inplace(r, fb), pre("alias.same", "alias.no-old-output"))
         # and the buffered CFB decryptor has the propagation pattern of CFB iff it is the CFB stream function
         only(rep, lambda r: BC.check_definition(r, fb), lambda o: o["rule"].startswith("buf.") and "Decryptor" in o["instance"])
         MI.check_overrides(rep, fb)
